@@ -12,6 +12,10 @@ NaN-padded ground-truth `instances` of every frame, frames have fewer / as many 
 centroids than ground-truth instances (and more than instance slots); same oracle, no
 assumption about which ground-truth instance a centroid is matched to.  Top-k: with max_instances=k the centroids kept for a frame are
 the k highest-valued brute-force local peaks of its centroid map.
+Negative values: the pool is drawn as all non-negative / about half of the frames / all frames with values below zero
+(undershoot ring around bumps, dip next to a bump, negative background offset, noise symmetric about zero - what the
+linear output of a real network has), for every model kind and both refinement modes, so that batches mix frames with and
+without negative values inside their refinement patches.
 """
 
 import math
@@ -24,7 +28,9 @@ LEVEL = "exploration"
 RULE = (
     "a case is a pool of generated frames + a batch (indices into the pool, any order, repeats allowed) + a model "
     "type (single-instance / top-down with and without crops / centroid-only top-down with ground-truth instances "
-    "(0..slots per frame, NaN-padded; none/fewer/equal/more centroids than instances, more than slots) / bottom-up) + max_instances + refinement; the batch "
+    "(0..slots per frame, NaN-padded; none/fewer/equal/more centroids than instances, more than slots) / bottom-up) + max_instances + refinement "
+    "+ negative-value class of the pool (no frame / about half of the frames / every frame has values below zero: undershoot ring, dip next to a bump, "
+    "negative background offset or zero-symmetric noise; classes neg:none_in_batch / neg:mixed_batch / neg:all_frames_of_batch and neg=<mode>); the batch "
     "result restricted to each frame is compared with the singleton-batch result; non-trivial = batch size >= 2 "
     "containing an empty and a non-empty frame, or frames with different instance counts (single-instance: different numbers of detected nodes); "
     "one part per model kind so that every kind gets a fixed share of the budget"
@@ -38,21 +44,79 @@ ASSUMPTIONS = [
     "topdown-gt: a frame in which a detected centroid is (within 1e-3 relative) equally near to two ground-truth instances is "
     "not judged on its matched instances (class gt:near_tie_not_judged; the nearest-instance choice may flip with float noise); "
     "frames without any ground-truth instance (all-NaN slots) are included although LabelsReader cannot emit them (class gt:frame_without_gt)",
-    "tolerance 1e-5 on coordinates/values (float32 kernels may tile differently for different batch sizes)",
+    "tolerance 1e-5 on coordinates/values (float32 kernels may tile differently for different batch sizes); measured on the unchanged tree "
+    "(4 seeds x 120 cases x 5 model kinds, with the negative-value classes): batch and singleton results were bit-identical, so the tolerance "
+    "(<= 4e-4 px at coordinate 40) was left as it is - lifting all 5x5 patches of a batch by 0.01 already moves a refined peak that lies 0.1 px off its cell centre by about 5e-3 px",
+    "negative values are kept small against the bumps (ring <= 35 % of its bump, dip <= 0.2, offset >= -0.1, noise >= -0.05; bump amplitudes >= 0.5) so that "
+    "every bump stays the strict local maximum above the 0.2 threshold and refinement patches keep a positive sum; the top-k oracle takes its "
+    "brute-force peaks from the same (negative-valued) map, so it needs no further assumption",
+    "after a value mismatch only, the batch is re-run with the other frames clamped at zero to name the bucket "
+    "(':through-negative-values-of-batch-mates'); the verdict never depends on that diagnostic run",
 ]
 TOL = 1e-5
 
 
 def make_frame(fr, c, h, w):
+    """Bumps with positive amplitude are max-composed.  Negative values (what the linear output of a real network
+    has: undershoot around a peak, background below zero), all optional so that older cases still build:
+    bump entries with NEGATIVE amplitude are min-composed and added on top (a wide one centred on a bump = undershoot
+    ring, a narrow one next to a bump = dip); `offset` is added to every pixel; `noise_sym` draws the noise from
+    (-noise, noise) instead of (0, noise)."""
     import numpy as np
 
     yy, xx = np.mgrid[0:h, 0:w].astype(np.float64)
     img = np.zeros((c, h, w))
+    neg = np.zeros((c, h, w))
     for ch, x, y, amp, sig in fr["bumps"]:
-        img[ch % c] = np.maximum(img[ch % c], amp * np.exp(-((xx - x) ** 2 + (yy - y) ** 2) / (2 * sig**2)))
+        g = amp * np.exp(-((xx - x) ** 2 + (yy - y) ** 2) / (2 * sig**2))
+        if amp >= 0:
+            img[ch % c] = np.maximum(img[ch % c], g)
+        else:
+            neg[ch % c] = np.minimum(neg[ch % c], g)
     rs = np.random.RandomState(fr["noise_seed"])
-    img = img + rs.uniform(0, fr["noise"], size=img.shape)
+    lo = -fr["noise"] if fr.get("noise_sym") else 0
+    img = img + neg + fr.get("offset", 0.0) + rs.uniform(lo, fr["noise"], size=img.shape)
     return img.astype(np.float32)
+
+
+# negative-value classes of a frame (see make_frame).  Depths are small against the bump amplitudes (>= 0.5): a ring
+# takes at most 35 % off its own bump (peak >= 0.325 > threshold 0.2) and is monotone up to 2.5 sigma, a dip of depth
+# <= 0.2 two or three pixels away lowers the bump centre by < 0.03 and its near neighbour by more: the bump stays the
+# strict local maximum, nothing new rises above the threshold, and the 5x5 refinement patches keep a clearly positive sum.
+NEG_MODES = ("ring", "dip", "offset", "noise")
+
+
+def _add_negatives(draw, mode, bumps, w, h, cm_channels):
+    """Frame-level extras (dict to merge into the frame spec) of negative class `mode`; ring/dip entries are appended
+    to `bumps` for bumps in confidence-map channels (< cm_channels; PAF channels are signed anyway)."""
+    from hypothesis import strategies as st
+
+    extra = {"neg_mode": mode}
+    if mode == "ring":
+        q = draw(st.sampled_from([0.35, 0.2, 0.35, 0.1]))
+        for ch, x, y, amp, sig in list(bumps):
+            if amp > 0 and ch < cm_channels and draw(st.integers(0, 3)) > 0:
+                bumps.append([ch, x, y, -q * amp, 2.0 * sig])
+    elif mode == "dip":
+        for ch, x, y, amp, sig in list(bumps):
+            if amp > 0 and ch < cm_channels and draw(st.integers(0, 3)) > 0:
+                dx, dy = draw(st.sampled_from([(2, 0), (-2, 0), (0, 2), (0, -2), (2, 2), (-2, 2), (2, -2), (-2, -2), (3, 0), (0, -3), (3, 1), (-1, 3)]))
+                bumps.append([ch, x + dx, y + dy, -draw(st.sampled_from([0.05, 0.1, 0.2])), 1.0])
+    elif mode == "offset":
+        extra["offset"] = -draw(st.sampled_from([0.02, 0.05, 0.1]))
+    elif mode == "noise":
+        extra["noise_sym"] = True
+    return extra
+
+
+def _draw_neg_mode(draw, pool_cls):
+    """pool_cls 'nonneg': no frame has negative values (the maps of an ideal renderer); 'some': about half of the
+    frames do, so that batches mix both; 'all': every frame does."""
+    from hypothesis import strategies as st
+
+    if pool_cls == "nonneg":
+        return None
+    return draw(st.sampled_from(NEG_MODES + ((None,) * 4 if pool_cls == "some" else ())))
 
 
 def local_peaks(m, thr):
@@ -295,11 +359,43 @@ def evaluate(case):
     frames = [make_frame(fr, c, case["h"], case["w"]) for fr in case["frames"]]
     batch = case["batch"]
     res.cls(f"model={model}", f"B={min(len(batch), 5)}{'+' if len(batch) > 5 else ''}", f"refine={case['refinement']}", f"k={case['max_instances']}")
+    # negative-value class of the batch, from the maps themselves (not from the generator's intent)
+    fmin = [float(f.min()) for f in frames]
+    members = sorted(set(batch))
+    neg_members = [fi for fi in members if fmin[fi] < 0]
+    res.cls("neg:none_in_batch" if not neg_members else "neg:all_frames_of_batch" if len(neg_members) == len(members) else "neg:mixed_batch")
+    res.cls(*sorted({f"neg={case['frames'][fi].get('neg_mode', 'unlabelled')}" for fi in neg_members}))
     res.n_evals = 0
     runfn = {"single": run_single, "centroids": run_centroids_only, "bottomup": run_bottomup, "topdown-gt": run_topdown_gt}.get(model)
 
-    def cmp_record(tag, pos, fi, got, ref, model=model):
-        """compare one frame's records: got (from the batch) vs ref (singleton)."""
+    hooks = {}  # set per model kind below: "rerun": frames -> output for the whole batch; "view": (output, pos, fi) -> record of that frame
+    probes = {}
+
+    def through_negatives(pos, fi, ref, pick):
+        """Diagnostic for the bucket key, run only after a value mismatch (so never on a healthy tree): the batch is
+        run once more with every OTHER frame's maps clamped at zero.  If the frame then equals its singleton result, the
+        dependence goes through values below zero of its batch-mates - a root cause of its own (something computed over
+        the whole batch from an undershoot), apart from leaks that also happen between non-negative maps."""
+        if not any(fmin[fj] < 0 for fj in batch if fj != fi):
+            return False
+        if fi not in probes:
+            try:
+                probes[fi] = hooks["rerun"]([f if j == fi else np.maximum(f, 0) for j, f in enumerate(frames)])
+            except Exception:  # noqa: BLE001 - diagnostic only, the mismatch itself is reported either way
+                probes[fi] = None
+        if probes[fi] is None:
+            return False
+        try:
+            g2 = pick(hooks["view"](probes[fi], pos, fi))
+        except Exception:  # noqa: BLE001
+            return False
+        gp, gv = _sorted_rows(*_strip_nan_rows(g2["peaks"], g2["vals"]))
+        rp, rv = _sorted_rows(*_strip_nan_rows(ref["peaks"], ref["vals"]))
+        return gp.shape == rp.shape and _close(gp, rp) and _close(gv, rv)
+
+    def cmp_record(tag, pos, fi, got, ref, model=model, pick=lambda rec: rec):
+        """compare one frame's records: got (from the batch) vs ref (singleton); pick maps a frame record to the
+        {"peaks", "vals"} under comparison (used by the diagnostic re-run)."""
         if "scores" in got and "scores" in ref and len(got["scores"]) == len(got["peaks"]) and len(ref["scores"]) == len(ref["peaks"]):
             # bottom-up: the instance score travels with its instance
             gp, gv, gs = _strip_nan_rows(got["peaks"], got["vals"], got["scores"])
@@ -316,7 +412,8 @@ def evaluate(case):
         if gp.shape != rp.shape:
             res.fail(f"{model}:batch-dependence:instance-count", f"{tag}: frame pool[{fi}] at batch position {pos}: {gp.shape[0]} instances in the batch vs {rp.shape[0]} alone; batch={batch}")
         elif not (_close(gp, rp) and _close(gv, rv)):
-            res.fail(f"{model}:batch-dependence:values", f"{tag}: frame pool[{fi}] at batch position {pos}: batch result {np.round(gp, 3).tolist()} vs alone {np.round(rp, 3).tolist()}; batch={batch}")
+            negmate = ":through-negative-values-of-batch-mates" if through_negatives(pos, fi, ref, pick) else ""
+            res.fail(f"{model}:batch-dependence:values{negmate}", f"{tag}: frame pool[{fi}] at batch position {pos}: batch result {np.round(gp, 3).tolist()} vs alone {np.round(rp, 3).tolist()}; batch={batch}; refinement={case['refinement']}; minimum value of each batch frame {[round(fmin[fj], 3) for fj in batch]}")
 
     counts = []
     gt_rel = set()
@@ -324,6 +421,8 @@ def evaluate(case):
         got = runner.guarded(res, f"{model}:batch", runfn, case, frames, batch)
         if got is runner.FAILED:
             return res
+        hooks["rerun"] = lambda fr2: runfn(case, fr2, batch)
+        hooks["view"] = lambda out2, pos2, fi2: out2[pos2]
         alone = {}  # pool index -> record of the singleton batch (a frame may occur several times in the batch)
         for pos, fi in enumerate(batch):
             if fi not in alone:
@@ -338,7 +437,8 @@ def evaluate(case):
                 res.fail(f"{model}:wrong-indices", f"record at position {pos} carries frame {g['frame_idx']} video {g['video_idx']}, expected {meta[:2]}")
             if model == "topdown-gt":
                 # the detected centroids the record carries, then the ground-truth instances matched to them
-                cmp_record("centroids", pos, fi, {"peaks": g["cents"], "vals": g["cvals"]}, {"peaks": ref["cents"], "vals": ref["cvals"]}, model="topdown-gt:centroids")
+                cents = lambda rec: {"peaks": rec["cents"], "vals": rec["cvals"]}  # noqa: E731
+                cmp_record("centroids", pos, fi, cents(g), cents(ref), model="topdown-gt:centroids", pick=cents)
                 n_cent = _strip_nan_rows(ref["cents"], ref["cvals"])[0].shape[0]
                 n_gt, slots = len(case["gt"][fi]), case["gt_slots"]
                 gt_rel.add("gt:cent<gt" if n_cent < n_gt else "gt:cent=gt" if n_cent == n_gt else "gt:cent>gt")
@@ -378,6 +478,9 @@ def evaluate(case):
         if got is runner.FAILED:
             return res
         known = {(case["meta"][fi][0], case["meta"][fi][1]): fi for fi in batch}
+        cat = lambda recs, f: (np.concatenate([x[f] for x in recs], 0) if recs else np.zeros((0, c, 2) if f == "peaks" else (0, c)))  # noqa: E731
+        hooks["rerun"] = lambda fr2: run_topdown(case, fr2, batch)
+        hooks["view"] = lambda out2, pos2, fi2: (lambda recs: {"peaks": cat(recs, "peaks"), "vals": cat(recs, "vals")})(out2.get((case["meta"][fi2][0], case["meta"][fi2][1]), []))
         for key in got:
             if key not in known:
                 res.fail("topdown:wrong-indices", f"record carries (frame, video) {key}, not in the batch {sorted(known)}")
@@ -388,7 +491,6 @@ def evaluate(case):
                 return res
             r = ref.get(key, [])
             g = got.get(key, [])
-            cat = lambda recs, f: (np.concatenate([x[f] for x in recs], 0) if recs else np.zeros((0, c, 2) if f == "peaks" else (0, c)))  # noqa: E731
             rr = {"peaks": cat(r, "peaks"), "vals": cat(r, "vals")}
             gg = {"peaks": cat(g, "peaks"), "vals": cat(g, "vals")}
             if len(g) > 1:
@@ -510,7 +612,7 @@ def strategy_topk():
     return case()
 
 
-def _gt_case(refinement, k):
+def _gt_case(refinement, k, pool_cls):
     """Centroid-only top-down ("topdown-gt"): channel 0 of a frame is the centroid map; every frame also has 0..slots
     ground-truth instances (original coordinates; nodes may be invisible).  Per frame the number of centroid bumps is
     drawn relative to its number of ground-truth instances: none / fewer (missed animals) / equal / more (spurious
@@ -550,7 +652,10 @@ def _gt_case(refinement, k):
             if draw(st.booleans()):
                 # the order of the labelled instances is not the order of the centroids
                 insts = list(draw(st.permutations(insts)))
-            frames.append({"bumps": bumps, "noise": draw(st.sampled_from([0.0, 0.01, 0.05])), "noise_seed": draw(st.integers(0, 10**6))})
+            mode = _draw_neg_mode(draw, pool_cls)
+            extra = _add_negatives(draw, mode, bumps, w, h, 1) if mode else {}
+            frames.append({"bumps": bumps, "noise": draw(st.sampled_from([0.01, 0.05, 0.05] if mode == "noise" else [0.0, 0.01, 0.05])),
+                           "noise_seed": draw(st.integers(0, 10**6)), **extra})
             meta.append([draw(st.integers(0, 50)) * 10 + f, draw(st.integers(0, 2)), eff])
             gt.append(insts)
         blen = 1 if draw(st.integers(0, 9)) == 9 else draw(st.sampled_from([3, 2, 4, 5]))
@@ -574,14 +679,16 @@ def strategy(model):
 
     @st.composite
     def case(draw):
-        refinement, k = draw(
+        # one joint choice (independent draws pair up lumpily): refinement x max_instances x negative-value class of the pool
+        refinement, k, pool_cls = draw(
             st.sampled_from(
-                [(r, kk) for r in (None, "integral")
-                 for kk in ((None, 1, 2, 3) if model in ("centroids", "topdown") else (None, 4, 2) if model == "topdown-gt" else (None,))]
+                [(r, kk, pc) for r in (None, "integral")
+                 for kk in ((None, 1, 2, 3) if model in ("centroids", "topdown") else (None, 4, 2) if model == "topdown-gt" else (None,))
+                 for pc in ("nonneg", "some", "some", "all")]
             )
         )
         if model == "topdown-gt":
-            return draw(_gt_case(refinement, k))
+            return draw(_gt_case(refinement, k, pool_cls))
         stride = draw(st.sampled_from([1, 2]))
         n_nodes = draw(st.integers(2, 3))
         channels = n_nodes if model != "bottomup" else n_nodes + 2 * (n_nodes - 1)
@@ -612,7 +719,10 @@ def strategy(model):
                         if ch > 0 and draw(st.integers(0, 2)) == 0:
                             continue  # this node is not visible for this animal (channel may stay below threshold)
                         bumps.append([ch, x + draw(st.integers(-2, 2)), y + draw(st.integers(-2, 2)), amp, draw(st.sampled_from([1.0, 1.5]))])
-            frames.append({"bumps": bumps, "noise": draw(st.sampled_from([0.0, 0.01, 0.05])), "noise_seed": draw(st.integers(0, 10**6))})
+            mode = _draw_neg_mode(draw, pool_cls)
+            extra = _add_negatives(draw, mode, bumps, w, h, n_nodes if model == "bottomup" else channels) if mode else {}
+            frames.append({"bumps": bumps, "noise": draw(st.sampled_from([0.01, 0.05, 0.05] if mode == "noise" else [0.0, 0.01, 0.05])),
+                           "noise_seed": draw(st.integers(0, 10**6)), **extra})
             meta.append([draw(st.integers(0, 50)) * 10 + f, draw(st.integers(0, 2)), draw(st.sampled_from([1.0, 0.5, 0.8]))])
         batch = draw(st.lists(st.integers(0, n_frames - 1), min_size=1 if draw(st.integers(0, 5)) == 0 else 2, max_size=6))
         edge_ratio = 2.0
